@@ -29,6 +29,8 @@ use p2panda_stream::{PipelineBuilder, Processor, StreamLayerExt};
 use tokio::sync::Notify;
 use tokio::task::LocalSet;
 
+use crate::minv::MinV;
+
 // ------------------------------------------------------------------------------------------
 // Environment: parked await points and the ticker that releases them
 // ------------------------------------------------------------------------------------------
@@ -450,7 +452,6 @@ struct Obs {
     stream_ended: bool,
     log: Vec<Ev>,
     panic: Option<String>,
-    steps: u64,
 }
 
 fn run_one(cfg: &Config, ch: &Chooser) -> Obs {
@@ -466,7 +467,6 @@ fn run_one(cfg: &Config, ch: &Chooser) -> Obs {
             stream_ended: false,
             log: vec![],
             panic: Some(p),
-            steps: 0,
         },
     }
 }
@@ -591,7 +591,6 @@ fn run_inner(cfg: &Config, ch: &Chooser) -> Obs {
     }
     ex.spawn_daemon("ticker", ticker(env.clone()));
     let end = ex.run(ch, 20_000);
-    let steps = ex.steps;
     drop(ex);
     let log = env.log.borrow().clone();
     let o = Obs {
@@ -605,7 +604,6 @@ fn run_inner(cfg: &Config, ch: &Chooser) -> Obs {
         stream_ended: ended.get(),
         log,
         panic: None,
-        steps,
     };
     o
 }
@@ -656,9 +654,9 @@ fn fmt_log(log: &[Ev]) -> String {
         .join(" ")
 }
 
-fn judge(rep: &mut Report, cfg: &Config, ch: &Chooser, o: &Obs) {
-    let replay = json!({"part": "c13", "config": cfg.to_json(), "vector": ch.vector()});
-    let ctx = |o: &Obs| {
+fn judge(mv: &mut MinV, cfg: &Config, ch: &Chooser, o: &Obs) {
+    let replay = || json!({"part": "c13", "config": cfg.to_json(), "vector": ch.vector()});
+    let ctx = || {
         format!(
             "{}; choices: {}; trace: {}; yielded {:?}",
             cfg.label(),
@@ -667,20 +665,22 @@ fn judge(rep: &mut Report, cfg: &Config, ch: &Chooser, o: &Obs) {
             o.outs
         )
     };
+    // smaller = fewer deviations, fewer inputs, fewer stages
+    let size = (ch.deviations() as u64, cfg.inputs.len() as u64, (cfg.topo.stages() * 1000 + ch.log().len()) as u64);
     if let Some(p) = &o.panic {
         let short: String = p.chars().take(60).collect();
-        rep.violation(format!("panic/{}", short.replace(' ', "-")), format!("panic: {p}; {}", ctx(o)), replay);
+        mv.add(format!("panic/{}", short.replace(' ', "-")), size, || format!("panic: {p}; {}", ctx()), replay);
         return;
     }
     if o.end == "horizon" {
-        rep.violation("livelock/step-horizon", format!("no quiescence within 20000 steps; {}", ctx(o)), replay);
+        mv.add("livelock/step-horizon".into(), size, || format!("no quiescence within 20000 steps; {}", ctx()), replay);
         return;
     }
     if !o.errs.is_empty() {
-        rep.violation("error-item", format!("error items {:?}; {}", o.errs, ctx(o)), replay.clone());
+        mv.add("error-item".into(), size, || format!("error items {:?}; {}", o.errs, ctx()), replay);
     }
     if o.stream_ended {
-        rep.violation("stream-terminated", format!("the processor stream returned None; {}", ctx(o)), replay.clone());
+        mv.add("stream-terminated".into(), size, || format!("the processor stream returned None; {}", ctx()), replay);
     }
     let expected: Vec<u32> = cfg.inputs.iter().map(|x| cfg.expected(*x)).collect();
     let mut rest = o.outs.clone();
@@ -695,28 +695,33 @@ fn judge(rep: &mut Report, cfg: &Config, ch: &Chooser, o: &Obs) {
     for x in &missing {
         let (boundary, how) = diagnose(cfg, &o.log, *x);
         let class = if how.starts_with("accepted-but") { "stalled" } else { "lost" };
-        rep.violation(
+        mv.add(
             format!("{class}/{boundary}/{how}"),
-            format!(
-                "input {x} (expected output {}) was never yielded: {how} at the {boundary} boundary; {}",
-                cfg.expected(*x),
-                ctx(o)
-            ),
-            replay.clone(),
+            size,
+            || {
+                format!(
+                    "input {x} (expected output {}) was never yielded: {how} at the {boundary} boundary; {}",
+                    cfg.expected(*x),
+                    ctx()
+                )
+            },
+            replay,
         );
     }
     if !rest.is_empty() {
         let dup = rest.iter().any(|v| expected.contains(v));
-        rep.violation(
-            if dup { "duplicated-output" } else { "unexpected-output" },
-            format!("outputs beyond the expected multiset: {rest:?}; {}", ctx(o)),
-            replay.clone(),
+        mv.add(
+            if dup { "duplicated-output".into() } else { "unexpected-output".into() },
+            size,
+            || format!("outputs beyond the expected multiset: {rest:?}; {}", ctx()),
+            replay,
         );
     }
     if cfg.all_fifo() && missing.is_empty() && rest.is_empty() && o.outs != expected {
-        rep.violation(
-            "fifo-order-broken",
-            format!("all processors are FIFO, expected {expected:?}; {}", ctx(o)),
+        mv.add(
+            "fifo-order-broken".into(),
+            size,
+            || format!("all processors are FIFO, expected {expected:?}; {}", ctx()),
             replay,
         );
     }
@@ -774,7 +779,9 @@ pub fn run(mut rep: Report) -> i32 {
                     let o = run_one(&cfg, &ch);
                     println!("replay trace: {}", fmt_log(&o.log));
                     println!("replay outputs: {:?} end={}", o.outs, o.end);
-                    judge(&mut rep, &cfg, &ch, &o);
+                    let mut mv = MinV::new();
+                    judge(&mut mv, &cfg, &ch, &o);
+                    mv.flush(&mut rep);
                 } else {
                     rep.machinery_error("replay file has no config/vector".into());
                 }
@@ -789,6 +796,7 @@ pub fn run(mut rep: Report) -> i32 {
     let wall_total = if thorough { 540.0 } else { 30.0 };
     let started = std::time::Instant::now();
     let mut per_topo: std::collections::BTreeMap<&'static str, u64> = Default::default();
+    let mut mv = MinV::new();
     for (ci, cfg) in cfgs.iter().enumerate() {
         let left = (wall_total - started.elapsed().as_secs_f64()).max(1.0);
         let share = left / (cfgs.len() - ci) as f64;
@@ -799,6 +807,7 @@ pub fn run(mut rep: Report) -> i32 {
             threads: rep.args.threads,
         };
         let rep_ref = &mut rep;
+        let mv_ref = &mut mv;
         let st = dfs_par(
             &dcfg,
             |ch| run_one(cfg, ch),
@@ -813,12 +822,13 @@ pub fn run(mut rep: Report) -> i32 {
                 if rep.want_sample() && parked && o.outs.len() == cfg.inputs.len() && cfg.inputs.len() == 3 {
                     rep.sample(json!({"config": cfg.label(), "choices": ch.describe(), "trace": fmt_log(&o.log), "yielded": o.outs}));
                 }
-                judge(rep, cfg, ch, &o);
+                judge(mv_ref, cfg, ch, &o);
             },
         );
         *per_topo.entry(cfg.topo.name()).or_default() += st.executions;
         rep.absorb_dfs(&cfg.label(), &st, max_dev);
     }
+    mv.flush(&mut rep);
     rep.set("executions_per_topology", json!(per_topo));
     rep.set("deviation_bound", json!(max_dev));
     rep.assume("scripted processors are cancel-safe in `next` (they park before taking an item) and accept an item only at the end of `process`; their delays are parks released by an environment task, so every other task may run in between");
